@@ -20,8 +20,43 @@ def mutest(diff, pid):
     return p.returncode, (lines[0][8:300] if lines else '')
 
 
+def one(job):
+    d, tag, pid, diff, n, cf, dest = job
+    c = json.loads(open(cf).read().replace('\\', '/').replace('\t', ' '))
+    meta = json.load(open(os.path.join(d, 'mut%s_meta.json' % n)))
+    if subprocess.run(['git', '-C', '/repo', 'apply', '--check', diff], capture_output=True).returncode != 0:
+        os.makedirs(dest, exist_ok=True)
+        json.dump({'property': pid, 'kept': False, 'reason': 'patch no longer applies to /repo HEAD (the code it changed was repaired by a later fix: commit)', 'confirmation': c, 'agent_meta': meta},
+                  open(os.path.join(dest, 'rejected.json'), 'w'), indent=1)
+        return '%s %s moot: does not apply to HEAD' % (tag, n)
+    if not confirmed(c):
+        os.makedirs(dest, exist_ok=True)
+        json.dump({'property': pid, 'kept': False, 'reason': 'not confirmed on the current /repo HEAD', 'confirmation': c, 'agent_meta': meta}, open(os.path.join(dest, 'rejected.json'), 'w'), indent=1)
+        return '%s %s NOT confirmed: %s' % (tag, n, {k: c.get(k) for k in ('applies', 'demo_clean_exit', 'demo_mutated_exit', 'suite_summary')})
+    caught = {}
+    for chk in [pid] + EXTRA.get(pid, []):
+        rc, what = mutest(diff, chk)
+        caught[chk] = {'exit': rc, 'first_violation': what}
+        if rc == 1 and chk == pid:
+            break
+    os.makedirs(dest, exist_ok=True)
+    shutil.copy(diff, os.path.join(dest, 'patch.diff'))
+    shutil.copy(os.path.join(d, 'mut%s_demo.py' % n), os.path.join(dest, 'demo.py'))
+    json.dump({'property': pid, 'round': 2 if tag.endswith('b') else 1, 'summary': meta.get('summary'), 'needs': meta.get('needs'), 'files': meta.get('files'), 'rebased': meta.get('rebased'),
+               'written_by': 'independent sub-agent given only the property text and a scratch worktree' + (' (plus one-line summaries of the changes already tried)' if tag.endswith('b') else ''),
+               'what_was_run': c.get('ran'), 'demo_clean_exit': c['demo_clean_exit'], 'demo_changed_exit': c['demo_mutated_exit'],
+               'suite_with_change': c['suite_summary'], 'suite_failures_are_the_baseline_set': True,
+               'checks_run_against_it': caught,
+               'caught_by': sorted(k for k, v in caught.items() if v['exit'] == 1)}, open(os.path.join(dest, 'meta.json'), 'w'), indent=1)
+    return '%s %s kept; caught by %s' % (tag, n, sorted(k for k, v in caught.items() if v['exit'] == 1) or 'NONE')
+
+
 def main():
-    only = set(sys.argv[1:])
+    from concurrent.futures import ThreadPoolExecutor
+    args = [a for a in sys.argv[1:] if not a.startswith('-')]
+    force = '--force' in sys.argv
+    only = set(args)
+    jobs = []
     for d in sorted(glob.glob(os.path.join(UNV, 'C*'))):
         tag = os.path.basename(d)
         pid = tag[:3]
@@ -31,31 +66,12 @@ def main():
             n = re.search(r'mut(\d+)\.diff', diff).group(1)
             cf = os.path.join(d, 'mut%s_confirm.json' % n)
             dest = os.path.join(ROOT, 'seeded', '%s-%s' % (tag, n))
-            if not os.path.exists(cf) or os.path.exists(os.path.join(dest, 'meta.json')):
+            if not os.path.exists(cf) or (os.path.exists(os.path.join(dest, 'meta.json')) and not force):
                 continue
-            c = json.loads(open(cf).read().replace('\\', '/').replace('\t', ' '))
-            meta = json.load(open(os.path.join(d, 'mut%s_meta.json' % n)))
-            if not confirmed(c):
-                print(pid, n, 'NOT confirmed:', {k: c.get(k) for k in ('applies', 'demo_clean_exit', 'demo_mutated_exit', 'suite_summary')})
-                os.makedirs(dest, exist_ok=True)
-                json.dump({'property': pid, 'kept': False, 'reason': 'not confirmed on the current /repo HEAD', 'confirmation': c, 'agent_meta': meta}, open(os.path.join(dest, 'rejected.json'), 'w'), indent=1)
-                continue
-            caught = {}
-            for chk in [pid] + EXTRA.get(pid, []):
-                rc, what = mutest(diff, chk)
-                caught[chk] = {'exit': rc, 'first_violation': what}
-                if rc == 1 and chk == pid:
-                    break
-            os.makedirs(dest, exist_ok=True)
-            shutil.copy(diff, os.path.join(dest, 'patch.diff'))
-            shutil.copy(os.path.join(d, 'mut%s_demo.py' % n), os.path.join(dest, 'demo.py'))
-            json.dump({'property': pid, 'summary': meta.get('summary'), 'needs': meta.get('needs'), 'files': meta.get('files'),
-                       'written_by': 'independent sub-agent given only the property text and a scratch worktree',
-                       'what_was_run': c.get('ran'), 'demo_clean_exit': c['demo_clean_exit'], 'demo_changed_exit': c['demo_mutated_exit'],
-                       'suite_with_change': c['suite_summary'], 'suite_failures_are_the_baseline_set': True,
-                       'checks_run_against_it': caught,
-                       'caught_by': sorted(k for k, v in caught.items() if v['exit'] == 1)}, open(os.path.join(dest, 'meta.json'), 'w'), indent=1)
-            print(pid, n, 'kept; caught by', sorted(k for k, v in caught.items() if v['exit'] == 1) or 'NONE')
+            jobs.append((d, tag, pid, diff, n, cf, dest))
+    with ThreadPoolExecutor(max_workers=3) as ex:
+        for line in ex.map(one, jobs):
+            print(line, flush=True)
 
 
 main()
